@@ -62,6 +62,54 @@ def strip_rule(ctx, r):
             r.ok(key, "haystack = without_terminator(.., config.line_term)", fn=f)
 
 
+def strip_helper_rule(ctx, r):
+    """lines::without_terminator strips exactly the full terminator sequence, and only when the line ends with it."""
+    facts = ctx.facts
+    f = facts.fn(WT)
+    eb = ExprBuilder(f)
+    AB = "grep_matcher::LineTerminator::as_bytes"
+    eqs = cond_switches(f, lambda e: is_call(e, "core::cmp::PartialEq::eq") and mentions_call(e, AB), eb)
+    if not eqs:
+        r.bad("helper|test", "without_terminator no longer compares the line's tail with the whole terminator sequence "
+              "(LineTerminator::as_bytes): with CRLF a line ending in a bare LF would lose content bytes", fn=f, construct="without_terminator")
+        return
+    e = eqs[0][3]
+    tail = [x for x in walk(e) if is_call(x, "[T]::get") or is_call(x, "core::ops::index::Index::index")]
+    tail_ok = tail and any(y.k == "arg" and y[1] == 1 for y in walk(tail[0])) and \
+        any(is_call(y, "usize::saturating_sub") or (y.k == "bin" and y[1] in ("Sub", "SubWithOverflow")) for y in walk(tail[0]))
+    if tail_ok:
+        r.ok("helper|test", "strips iff bytes[len - term.len()..] == term.as_bytes()", fn=f)
+    else:
+        r.bad("helper|test", "without_terminator's test is `%s`" % show(e)[:80], fn=f, construct="without_terminator")
+    # true edge: bytes[..len - term.len()]; false edge: bytes unchanged
+    st = Sccp(f).run([(eqs[0][1][1], {})])
+    sf = Sccp(f).run([(eqs[0][2][1], {})])
+
+    def ret_expr(sx):
+        out = []
+        for bb, j, s_ in f.stmts():
+            if bb in sx.exec_blocks and s_["k"] == "assign" and s_["place"]["l"] == 0 and not s_["place"]["p"]:
+                out.append(eb.rvalue(s_["rv"]))
+        return out
+    rt, rf = ret_expr(st), ret_expr(sf)
+    ok_t = rt and all(any(is_call(y, "core::ops::index::Index::index") for y in walk(x)) and mentions_call(x, AB) and
+                      any(y.k == "agg" and y[1].endswith("RangeTo") for y in walk(x)) for x in rt)
+    ok_f = rf and all(strip(x).k == "arg" and strip(x)[1] == 1 for x in rf)
+    if ok_t and ok_f:
+        r.ok("helper|result", "match ⇒ bytes[..len - term.len()], otherwise the line unchanged", fn=f)
+    else:
+        r.bad("helper|result", "without_terminator returns %s / %s" % ([show(x)[:40] for x in rt], [show(x)[:40] for x in rf]), fn=f,
+              construct="without_terminator")
+    g = facts.fn("grep_matcher::LineTerminator::as_bytes")
+    ebg = ExprBuilder(g)
+    consts = " ".join(str(x[2]) for x in walk(ebg.local(0)) if x.k == "const" and x[2])
+    if ("\\r\\n" in consts or "13_u8, 10_u8" in consts or "\r\n" in consts) and any(x.k == "field" for x in walk(ebg.local(0))):
+        r.ok("helper|as_bytes", "LineTerminator::as_bytes: CRLF ⇒ \"\\r\\n\", otherwise the single byte", fn=g)
+    else:
+        r.bad("helper|as_bytes", "LineTerminator::as_bytes no longer yields \\r\\n for CRLF / the byte otherwise (%s)" % consts[:60], fn=g,
+              construct="as_bytes")
+
+
 def verify_rule(ctx, r):
     facts = ctx.facts
     f = facts.fn(CORE + "::find_by_line_fast")
@@ -549,8 +597,10 @@ def striphir_rule(ctx, r):
 
 
 def run(ctx):
-    with ctx.rule("C01.STRIP", "per-line matcher calls receive the terminator-stripped line", floor=2, kind="FLOW") as r:
+    with ctx.rule("C01.STRIP", "per-line matcher calls receive the terminator-stripped line; the stripping helper's definition", floor=5,
+                  kind="FLOW/TABLE") as r:
         strip_rule(ctx, r)
+        strip_helper_rule(ctx, r)
     with ctx.rule("C01.VERIFY", "candidate lines are re-verified; a rejected candidate resumes after its line", floor=3, kind="GUARD/A3") as r:
         verify_rule(ctx, r)
     with ctx.rule("C01.FASTGATE", "fast-path admission guards and fast→slow dispatch", floor=7, kind="GUARD/A3") as r:
